@@ -54,7 +54,10 @@ ASSUMPTIONS = [
     "interval is then floor(|dt|)",
     "the sphere is the one of typhon.constants.earth_radius; pairs whose "
     "chord is within 1e-9*r + 1e-7 km of max_distance may be reported or not",
-    "with max_interval=None (spatial search only) start / end are not given",
+    "with max_interval=None (spatial search only) start / end are ignored by "
+    "the implementation (open finding spatial-only/window-ignored); such "
+    "calls are generated rarely, labelled spatial-only-window and compared "
+    "with the search without window",
 ]
 
 BASE = dt.datetime(2018, 3, 1, 12, 0, 0)
@@ -274,6 +277,20 @@ def call_collocate(collocator, sets, layouts, call):
     return result, (names or ["primary", "secondary"])
 
 
+def pair_ids(result, names):
+    """set of (id1, id2) of a result, empty for None; no validation"""
+    if result is None:
+        return set()
+    try:
+        pairs = np.asarray(result["Collocations/pairs"].values)
+        ids1 = np.asarray(result[names[0] + "/id"].values)
+        ids2 = np.asarray(result[names[1] + "/id"].values)
+        return {(int(ids1[a]), int(ids2[b]))
+                for a, b in zip(pairs[0], pairs[1])}
+    except (KeyError, IndexError, TypeError, ValueError):
+        return set()
+
+
 def compare(ctx, result, names, exp, sets, call, describe):
     p1, p2 = sets[call["primary"]], sets[call["secondary"]]
     if result is None:
@@ -415,6 +432,23 @@ def run_calls(case, ctx, calls, fresh):
                 [layouts[call["primary"]], layouts[call["secondary"]]])
 
         result, names = call_collocate(col, sets, layouts, call)
+        if m_s is None and (start is not None or end is not None):
+            # open finding: without max_interval the window is not applied.
+            # The claim (exp) is tried first; if the result is instead what
+            # the search without window gives, that is reported under its own
+            # signature and the remaining checks use that reference.
+            ctx.label("spatial-only-window")
+            got = pair_ids(result, names)
+            if not (exp.must <= got <= exp.may):
+                nowin = expected_pairs(
+                    sets[call["primary"]], sets[call["secondary"]], r_km,
+                    None, None, None)
+                if nowin.must <= got <= nowin.may:
+                    ctx.fail("spatial-only/window-ignored", (
+                        "max_interval=None: pairs outside [start, end] are "
+                        "reported: %r\n%s" % (sorted(got - exp.may)[:8],
+                                              describe())))
+                    exp = nowin
         compare(ctx, result, names, exp, sets, call, describe)
         label_call(ctx, call, exp, col, sets, layouts, k, prev_build)
         build = ("build-primary" in col.seen, "build-secondary" in col.seen)
@@ -620,7 +654,8 @@ def layouts_for(draw, pset, allow_grid):
 def call_specs(draw, a, b, distance, interval, all_times, whole_seconds,
                window=True):
     start = end = None
-    if window and interval is not None:
+    if window and (interval is not None or draw(
+            st.sampled_from([False, False, True]))):
         start, end = draw(window_specs(all_times, whole_seconds))
     names = draw(st.sampled_from([None, None, ["A", "B"], ["sat", "ground"]]))
     return {"primary": a, "secondary": b,
@@ -692,7 +727,7 @@ def binned_cases(draw):
     interval = draw(interval_specs())
     m_s = interval["seconds"]
     cloud = draw(P.clouds(r_km, m_s, n_sets=2, metric="chord",
-                          allow_nan=True, tile={"copies": (42, 52)},
+                          allow_nan=True, tile={"copies": (42, 52), "sparse": True},
                           sizes=[(28, 34), (28, 34)], max_clusters=4))
     sets, layouts = [], []
     for pset in cloud["sets"]:
@@ -785,9 +820,9 @@ def history_cases(draw):
 def suites(tier):
     return [
         Suite("direct", check_direct, strategy=direct_cases(),
-              examples={"quick": 400, "thorough": 20000}),
+              examples={"quick": 340, "thorough": 20000}),
         Suite("histories", check_history, strategy=history_cases(),
-              examples={"quick": 90, "thorough": 4000}),
+              examples={"quick": 75, "thorough": 4000}),
         Suite("binned", check_direct, strategy=binned_cases(),
-              examples={"quick": 4, "thorough": 250}),
+              examples={"quick": 8, "thorough": 250}),
     ]
